@@ -68,6 +68,14 @@ def r1(ctx: Ctx) -> None:
                 diff = sorted(("" if pol else "not ") + k for k, pol in mine - theirs)
                 ctx.unrec(f, b.accept.node, f"{b.phase} {b.kind}: owner notified once with the market's record", "the call back is made under a condition that is not modelled (whether the skipped call would have done nothing is not decided)", "; ".join(diff)[:200])
                 continue
+        if not ok and len(cbs) == 1 and cbs[0].name == cb_name and kw(cbs[0], "log", 0) == b.accept.term and cbs[0].recv is not None and evs.index(cbs[0]) > i:
+            rv = strip_ver(cbs[0].recv)
+            if rv[0] == "sym" and "∈" in rv[1] and not rv[1].startswith("φ"):
+                # told through the variable of the loop over the consulted agents, never rebound on the way (a rebound one is a
+                # φ-term and is reported, seed C11t): it is the owner iff every order the agent hands in carries its own id, which
+                # the spoofing test establishes at run time -- that implication is not followed here
+                ctx.unrec(f, b.accept.node, f"{b.phase} {b.kind}: owner notified once with the market's record", "the call back goes to the agent being consulted instead of the one looked up by the order's agent id: equal only through the spoofing test, which is not followed", short(rv))
+                continue
         ctx.check(ok, f, b.accept.node, f"{b.phase} {b.kind}: owner notified once with the market's record", f"id2agent[{short(owner)}].{cb_name}(log=<record>) once",
                   "; ".join(f"{short(e.recv)}.{e.name}(log={short(kw(e, 'log', 0))})" for e in cbs) or "no callback")
         if ok:
